@@ -4,7 +4,8 @@
    match table and the tuner's choice function (= every hyper-parameter assignment) are
    universally quantified. *)
 From Coq Require Import String List ZArith Reals QArith Qreals.
-From QV Require Import AutoQ.Limits AutoQ.Search AutoQ.Forgiving AutoQ.Size.
+From QV Require Import AutoQ.Limits AutoQ.Search AutoQ.Forgiving AutoQ.Size Link.LimitLink.
+From QVGen Require Import LimitGen.
 Import ListNotations.
 Open Scope string_scope.
 
@@ -142,3 +143,20 @@ Theorem C20_single_slice_padding_refuted : exists (dflt l : list nat), length df
   nth_error (pad_slice 3 dflt l) 2 <> d_act dflt /\ nth_error (pad_limit false dflt l) 2 = d_act dflt.
 Proof. exact pad_slice_refuted. Qed.
 Print Assumptions C20_single_slice_padding_refuted.
+
+(* ---- tie to the source (T): _adjust_limit and the class lists regenerated from autoqkeras_internal.py on this run ---- *)
+Theorem C20_source_translated : translation_ok = true.
+Proof. exact link_limit_ok. Qed.
+Theorem C20_source_adjust_limit_is_pad_limit : forall (A : Type) (seq : bool) (dflt l : list A),
+  gen_pad_limit seq dflt l = pad_limit seq dflt l.
+Proof. exact link_pad_limit. Qed.
+Print Assumptions C20_source_adjust_limit_is_pad_limit.
+(* the code as it is now pads a short list of a non-recurrent class role by role *)
+Theorem C20_source_short_limit_padded_by_role : forall (A : Type) (dflt l : list A) k b a,
+  (length dflt = 3 \/ length dflt = 4)%nat -> (length l < 3)%nat ->
+  d_kernel dflt = Some k -> d_bias dflt = Some b -> d_act dflt = Some a ->
+  gen_pad_limit false dflt l = match l with [] => [k; b; a] | [x] => [x; b; a] | x :: y :: _ => [x; y; a] end.
+Proof. intros. rewrite link_pad_limit. apply pad_limit_roles; assumption. Qed.
+Print Assumptions C20_source_short_limit_padded_by_role.
+Theorem C20_source_class_lists : gen_registered = registered /\ gen_sequence = sequence_layers.
+Proof. split; [exact link_registered | exact link_sequence]. Qed.
